@@ -1,0 +1,87 @@
+//! Verification hooks (compiled only with `--cfg blue_verif`).  Add-only: without a registered
+//! hook every call below is one relaxed load and a branch; nothing changes behaviour.
+//!
+//! A registered hook is called around every atomic operation on a node's successor pointers
+//! (`phase` 0 immediately before, 1 immediately after, with the address of the pointer cell so
+//! that the hook can read the cell's value while it holds whatever exclusion it implements), and
+//! once (`phase` 2) at node allocation, node release and every dereference of a node pointer.
+//! A second hook may choose the height of a new node in place of the random choice.
+
+use std::sync::atomic::{AtomicUsize, Ordering};
+
+pub const GET: usize = 0;
+pub const SET: usize = 1;
+pub const CAS: usize = 2;
+pub const ALLOC: usize = 3;
+pub const FREE: usize = 4;
+pub const DEREF: usize = 5;
+
+/// `hook(phase, kind, node, level, cell)`; for ALLOC `level` carries the height.
+pub type Hook = fn(usize, usize, usize, usize, usize);
+/// `height_hook(max_height)` returns the height of the next node, or 0 for "choose randomly".
+pub type HeightHook = fn(usize) -> usize;
+
+static HOOK: AtomicUsize = AtomicUsize::new(0);
+static HEIGHT_HOOK: AtomicUsize = AtomicUsize::new(0);
+
+pub fn set_hook(hook: Option<Hook>) {
+    HOOK.store(hook.map(|f| f as usize).unwrap_or(0), Ordering::SeqCst);
+}
+
+pub fn set_height_hook(hook: Option<HeightHook>) {
+    HEIGHT_HOOK.store(hook.map(|f| f as usize).unwrap_or(0), Ordering::SeqCst);
+}
+
+#[inline]
+fn call(phase: usize, kind: usize, node: usize, level: usize, cell: usize) {
+    let h = HOOK.load(Ordering::Relaxed);
+    if h != 0 {
+        let f: Hook = unsafe { std::mem::transmute::<usize, Hook>(h) };
+        f(phase, kind, node, level, cell);
+    }
+}
+
+pub(crate) fn height(max_height: usize) -> Option<usize> {
+    let h = HEIGHT_HOOK.load(Ordering::Relaxed);
+    if h != 0 {
+        let f: HeightHook = unsafe { std::mem::transmute::<usize, HeightHook>(h) };
+        let height = f(max_height);
+        if height != 0 {
+            return Some(height);
+        }
+    }
+    None
+}
+
+#[inline]
+pub(crate) fn point(kind: usize, node: usize, level: usize) {
+    call(2, kind, node, level, 0);
+}
+
+/// Brackets one atomic operation: phase 0 on creation, phase 1 when it goes out of scope.
+pub(crate) struct Guard {
+    kind: usize,
+    node: usize,
+    level: usize,
+    cell: usize,
+}
+
+impl Guard {
+    #[inline]
+    pub(crate) fn new(kind: usize, node: usize, level: usize, cell: usize) -> Self {
+        call(0, kind, node, level, cell);
+        Self {
+            kind,
+            node,
+            level,
+            cell,
+        }
+    }
+}
+
+impl Drop for Guard {
+    #[inline]
+    fn drop(&mut self) {
+        call(1, self.kind, self.node, self.level, self.cell);
+    }
+}
